@@ -79,6 +79,7 @@ class PathCtx:
     self.real_mode = "real"
     self.oblig_names = set()
     self.vacuous = False
+    self.lazy = []
 
   # ---------------------------------------------------------------- symbols
   def fresh_name(self, base):
@@ -105,10 +106,14 @@ class PathCtx:
     if why:
       self.assumes.append(why)
 
-  def fact(self, cond, axiom):
-    """Adds an instantiated library axiom to the path condition."""
+  def fact(self, cond, axiom, lazy=False):
+    """Adds an instantiated library axiom to the path condition.  Lazy facts are used as hypotheses of the
+    obligations only (they are kept out of the incremental feasibility / simplification solver)."""
     self.axioms_used.add(axiom)
     cond = _z(cond)
+    if lazy:
+      self.lazy.append(cond)
+      return
     self.pc.append(cond)
     self.solver.add(cond)
 
@@ -172,12 +177,12 @@ class PathCtx:
           visit(ch, seen)
 
     seen = set()
-    for p in self.pc + [claim]:
+    for p in self.pc + self.lazy + [claim]:
       visit(p, seen)
     subs = [(e, z3.Const(self.fresh_name("abs"), e.sort())) for e in terms.values()]
     s = z3.Solver()
     s.set("timeout", OBL_TIMEOUT_MS)
-    for p in self.pc:
+    for p in self.pc + self.lazy:
       s.add(z3.substitute(p, *subs) if subs else p)
     s.add(z3.Not(z3.substitute(claim, *subs) if subs else claim))
     r = s.check()
@@ -235,6 +240,8 @@ class PathCtx:
     s = z3.Solver()
     s.set("timeout", OBL_TIMEOUT_MS)
     for c in self.pc:
+      s.add(c)
+    for c in self.lazy:
       s.add(c)
     s.add(z3.Not(claim))
     r = s.check()
